@@ -49,7 +49,7 @@ def main():
     base_p = os.path.join(os.path.dirname(os.path.abspath(__file__)), "literals_baseline.json")
     cur = literals(src)
     if "--write-baseline" in sys.argv:
-        json.dump({m: sorted(set(map(tuple, v))) for m, v in cur.items()}, open(base_p, "w"))
+        json.dump({m: sorted(map(tuple, v)) for m, v in cur.items()}, open(base_p, "w"))      # with multiplicity
         print("baseline written")
         return
     base = json.load(open(base_p)) if os.path.exists(base_p) else {}
@@ -60,6 +60,16 @@ def main():
         for k, v in vals:
             if float(v) not in known_vals and (k, v, m) not in new:
                 new.append((k, v, m))
+    if new:
+        # once the source has values the pinned tree does not know, values that merely occur *more often* than before join the
+        # dictionary too (a needle may combine a new constant with an old one: note 101 *and* velocity 7)
+        from collections import Counter
+        for m, vals in cur.items():
+            had = Counter(float(v) for _, v in base.get(m, []))
+            now = Counter(float(v) for _, v in vals)
+            for k, v in vals:
+                if now[float(v)] > had[float(v)] and (k, v, m) not in new and m in {x[2] for x in new}:
+                    new.append((k, v, m))
     ints = sorted({int(v) for k, v, _ in new if k == "i"} | {int(v) for k, v, _ in new if k == "f" and float(v).is_integer() and abs(v) < 2 ** 40})
     floats = sorted({float(v) for _, v, _ in new})
     json.dump(dict(ints=ints, floats=floats, where=sorted({m for _, _, m in new})), sys.stdout)
